@@ -23,10 +23,10 @@ structure Relation where
 
 abbrev R := Except String
 
-/-- `eat_whitespace` (relations.rs:299-303): WHITESPACE only — a NEWLINE token is *not* skipped -/
+/-- `eat_whitespace` (relations.rs:299-304, after fix 6884e80): WHITESPACE and NEWLINE -/
 def eatWs : List Tok → List Tok
   | [] => []
-  | t :: ts => if t.1 = .WHITESPACE then eatWs ts else t :: ts
+  | t :: ts => if t.1 = .WHITESPACE ∨ t.1 = .NEWLINE then eatWs ts else t :: ts
 
 theorem eatWs_len (ts) : (eatWs ts).length ≤ ts.length := by
   induction ts with
@@ -56,12 +56,12 @@ def constraintSpan : List Tok → Str × List Tok
       (t.2 ++ (constraintSpan ts).1, (constraintSpan ts).2)
     else ([], t :: ts)
 
-/-- relations.rs:339-347: IDENT and COLON texts up to (not including) R_PARENS; any other token
-    (a WHITESPACE before `)` too) is an error; running out of tokens just ends the loop -/
+/-- relations.rs:340-348 (after fix 23e6f67): IDENT and COLON texts up to (not including) R_PARENS,
+    WHITESPACE or NEWLINE; any other token is an error; running out of tokens just ends the loop -/
 def versionSpan : List Tok → R (Str × List Tok)
   | [] => .ok ([], [])
   | t :: ts =>
-    if t.1 = .R_PARENS then .ok ([], t :: ts)
+    if t.1 = .R_PARENS ∨ t.1 = .WHITESPACE ∨ t.1 = .NEWLINE then .ok ([], t :: ts)
     else if t.1 = .IDENT ∨ t.1 = .COLON then
       match versionSpan ts with
       | .ok (s, r) => .ok (t.2 ++ s, r)
@@ -87,7 +87,8 @@ def readVersion : List Tok → R (Option (VC × Version) × List Tok)
             | c :: r2 => if c.1 = .R_PARENS then .ok (some (vc, v), r2) else .error "Expected ')'"
     else .ok (none, t :: ts)
 
-/-- relations.rs:365-372: the `loop` after `[` — a NOT (negated architecture) is an error -/
+/-- relations.rs:367-380 (after fixes 6884e80, f607859): the `loop` after `[` — a negated
+    architecture is stored with its `!` -/
 def archLoop : List Tok → R (List Str × List Tok)
   | [] => .error "Expected architecture name"
   | t :: ts =>
@@ -95,9 +96,39 @@ def archLoop : List Tok → R (List Str × List Tok)
       match archLoop ts with
       | .ok (as, r) => .ok (t.2 :: as, r)
       | .error e => .error e
-    else if t.1 = .WHITESPACE then archLoop ts
+    else if t.1 = .NOT then
+      match ts with
+      | [] => .error "Expected architecture name"
+      | n :: r =>
+        if n.1 = .IDENT then
+          match archLoop r with
+          | .ok (as, r') => .ok (('!' :: n.2) :: as, r')
+          | .error e => .error e
+        else .error "Expected architecture name"
+    else if t.1 = .WHITESPACE ∨ t.1 = .NEWLINE then archLoop ts
     else if t.1 = .R_BRACKET then .ok ([], ts)
     else .error "Expected architecture name"
+
+/-- unfolding equation of `archLoop` on a non-empty list -/
+theorem archLoop_cons (t : Tok) (ts : List Tok) :
+    archLoop (t :: ts) =
+      if t.1 = .IDENT then
+        match archLoop ts with
+        | .ok (as, r) => .ok (t.2 :: as, r)
+        | .error e => .error e
+      else if t.1 = .NOT then
+        match ts with
+        | [] => .error "Expected architecture name"
+        | n :: r =>
+          if n.1 = .IDENT then
+            match archLoop r with
+            | .ok (as, r') => .ok (('!' :: n.2) :: as, r')
+            | .error e => .error e
+          else .error "Expected architecture name"
+      else if t.1 = .WHITESPACE ∨ t.1 = .NEWLINE then archLoop ts
+      else if t.1 = .R_BRACKET then .ok ([], ts)
+      else .error "Expected architecture name" := by
+  cases ts <;> simp [archLoop]
 
 /-- relations.rs:362-377 (the caller has already eaten whitespace) -/
 def readArchs : List Tok → R (Option (List Str) × List Tok)
@@ -109,124 +140,71 @@ def readArchs : List Tok → R (Option (List Str) × List Tok)
       | .error e => .error e
     else .ok (none, t :: ts)
 
-/-- one pass of the innermost `loop` body's `match tokens.next()` (relations.rs:386-397):
-    the profile pushed (if any) and the tokens left -/
-def readTerm : List Tok → R (Option BuildProfile × List Tok)
+/-- the `loop` of one restriction list (relations.rs:388-401, after fix 99661af): possibly negated
+    terms separated by WHITESPACE / NEWLINE, up to and including `>` -/
+def profTerms : List Tok → R (List BuildProfile × List Tok)
   | [] => .error "Expected profile name"
   | t :: ts =>
     if t.1 = .NOT then
       match ts with
       | [] => .error "Expected profile name"
-      | n :: r => if n.1 = .IDENT then .ok (some (.Disabled n.2), r) else .error "Expected profile name"
-    else if t.1 = .IDENT then .ok (some (.Enabled t.2), ts)
-    else if t.1 = .WHITESPACE then .ok (none, ts)
+      | n :: r =>
+        if n.1 = .IDENT then
+          match profTerms r with
+          | .ok (ps, r') => .ok (.Disabled n.2 :: ps, r')
+          | .error e => .error e
+        else .error "Expected profile name"
+    else if t.1 = .IDENT then
+      match profTerms ts with
+      | .ok (ps, r) => .ok (.Enabled t.2 :: ps, r)
+      | .error e => .error e
+    else if t.1 = .WHITESPACE ∨ t.1 = .NEWLINE then profTerms ts
+    else if t.1 = .R_ANGLE then .ok ([], ts)
     else .error "Expected profile name"
 
-theorem readTerm_len {ts p r} (h : readTerm ts = .ok (p, r)) : r.length < ts.length := by
-  cases ts with
-  | nil => simp [readTerm] at h
-  | cons t ts =>
-    simp only [readTerm] at h
-    split at h
-    · cases ts with
-      | nil => simp at h
-      | cons n r' =>
-        simp only at h
-        split at h
-        · simp at h; obtain ⟨_, rfl⟩ := h; simp; omega
-        · simp at h
-    · split at h
-      · simp at h; obtain ⟨_, rfl⟩ := h; simp
-      · split at h
-        · simp at h; obtain ⟨_, rfl⟩ := h; simp
-        · simp at h
-
-/-- the innermost `loop` (relations.rs:385-403): terms separated by COMMA tokens -/
-def termLoop (ts : List Tok) : R (List BuildProfile × List Tok) :=
-  match h : readTerm ts with
-  | .error e => .error e
-  | .ok (p, r) =>
-    match r with
-    | [] => .ok (p.toList, [])
-    | c :: r2 =>
-      if c.1 = .COMMA then
-        match termLoop r2 with
-        | .ok (ps, r3) => .ok (p.toList ++ ps, r3)
+/-- unfolding equation of `profTerms` on a non-empty list -/
+theorem profTerms_cons (t : Tok) (ts : List Tok) :
+    profTerms (t :: ts) =
+      if t.1 = .NOT then
+        match ts with
+        | [] => .error "Expected profile name"
+        | n :: r =>
+          if n.1 = .IDENT then
+            match profTerms r with
+            | .ok (ps, r') => .ok (.Disabled n.2 :: ps, r')
+            | .error e => .error e
+          else .error "Expected profile name"
+      else if t.1 = .IDENT then
+        match profTerms ts with
+        | .ok (ps, r) => .ok (.Enabled t.2 :: ps, r)
         | .error e => .error e
-      else .ok (p.toList, c :: r2)
-termination_by ts.length
-decreasing_by
-  have := readTerm_len h
-  simp at this ⊢; omega
+      else if t.1 = .WHITESPACE ∨ t.1 = .NEWLINE then profTerms ts
+      else if t.1 = .R_ANGLE then .ok ([], ts)
+      else .error "Expected profile name" := by
+  cases ts <;> simp [profTerms]
 
-theorem termLoop_len (ts) : ∀ {ps r}, termLoop ts = .ok (ps, r) → r.length < ts.length := by
-  fun_induction termLoop ts
-  next x e h => intro ps r hh; simp at hh
-  next x p h _ =>
-    intro ps r hh; simp at hh; obtain ⟨_, rfl⟩ := hh
-    have := readTerm_len h; simpa using this
-  next x p c r2 h hc ps' r3 hrec _ ih =>
-    intro ps r hh; simp at hh; obtain ⟨_, rfl⟩ := hh
-    have h1 := readTerm_len h
-    have h2 := ih hrec
-    simp at h1; omega
-  next x p c r2 h hc e hrec _ ih => intro ps r hh; simp at hh
-  next x p c r2 h hc _ =>
-    intro ps r hh; simp at hh; obtain ⟨_, rfl⟩ := hh
-    have := readTerm_len h; simpa using this
+theorem profTerms_len (ts) : ∀ {ps r}, profTerms ts = .ok (ps, r) → r.length < ts.length := by
+  fun_induction profTerms ts <;> intro ps r hh <;> simp_all <;> try omega
+  all_goals (first | (obtain ⟨_, rfl⟩ := hh; omega) | skip)
 
-/-- the `loop` around it (relations.rs:383-410): a group is pushed after every pass; the pass is
-    followed by `tokens.next()`, which ends the block only if it is R_ANGLE — any other token is
-    consumed and *dropped*, and a new group is started (so `<a b>` yields two groups) -/
-def groupLoop (ts : List Tok) : R (List (List BuildProfile) × List Tok) :=
-  match h : termLoop ts with
-  | .error e => .error e
-  | .ok (p, r) =>
-    match r with
-    | [] => .error "Expected profile name"   -- next pass: `tokens.next()` is `None`
-    | c :: r2 =>
-      if c.1 = .R_ANGLE then .ok ([p], eatWs r2)
-      else
-        match groupLoop r2 with
-        | .ok (gs, r3) => .ok (p :: gs, r3)
-        | .error e => .error e
-termination_by ts.length
-decreasing_by
-  have := termLoop_len ts h
-  simp at this ⊢; omega
-
-theorem groupLoop_len (ts) : ∀ {gs r}, groupLoop ts = .ok (gs, r) → r.length < ts.length := by
-  fun_induction groupLoop ts
-  next x e h => intro gs r hh; simp at hh
-  next x p h _ => intro gs r hh; simp at hh
-  next x p c r2 h hc _ =>
-    intro gs r hh; simp at hh; obtain ⟨_, rfl⟩ := hh
-    have h1 := termLoop_len x h
-    have h2 := eatWs_len r2
-    simp at h1; omega
-  next x p c r2 h hc gs' r3 hrec _ ih =>
-    intro gs r hh; simp at hh; obtain ⟨_, rfl⟩ := hh
-    have h1 := termLoop_len x h
-    have h2 := ih hrec
-    simp at h1; omega
-  next x p c r2 h hc e hrec _ ih => intro gs r hh; simp at hh
-
-/-- `while let Some((L_ANGLE, _)) = tokens.peek()` (relations.rs:381-411) -/
+/-- `while let Some((L_ANGLE, _)) = tokens.peek()` (relations.rs:385-404): one list per `<…>`,
+    then `eat_whitespace` -/
 def profilesLoop (ts : List Tok) : R (List (List BuildProfile) × List Tok) :=
   match ts with
   | [] => .ok ([], [])
   | t :: r =>
     if t.1 = .L_ANGLE then
-      match h : groupLoop r with
+      match h : profTerms r with
       | .error e => .error e
-      | .ok (gs, r2) =>
-        match profilesLoop r2 with
-        | .ok (more, r3) => .ok (gs ++ more, r3)
+      | .ok (p, r2) =>
+        match profilesLoop (eatWs r2) with
+        | .ok (more, r3) => .ok (p :: more, r3)
         | .error e => .error e
     else .ok ([], t :: r)
 termination_by ts.length
 decreasing_by
-  have := groupLoop_len r h
+  have h1 := profTerms_len r h
+  have h2 := eatWs_len r2
   simp; omega
 
 /-- `<lossy::Relation as FromStr>::from_str` on the token list -/
@@ -280,7 +258,8 @@ def showProfile : BuildProfile → Str
   | .Enabled s => s
   | .Disabled s => '!' :: s
 
-/-- `Display for lossy::Relation` (relations.rs:158-182) -/
+/-- `Display for lossy::Relation` (relations.rs:158-183; after fix 9fbb64b the terms of a restriction
+    list are separated by one space) -/
 def showRelation (r : Relation) : Str :=
   r.name
     ++ (match r.archqual with | some a => ':' :: a | none => [])
@@ -290,7 +269,7 @@ def showRelation (r : Relation) : Str :=
     ++ (match r.architectures with
         | some as => [' ', '['] ++ Text.join [' '] as ++ [']']
         | none => [])
-    ++ (r.profiles.map fun g => [' ', '<'] ++ Text.join [',', ' '] (g.map showProfile) ++ ['>']).flatten
+    ++ (r.profiles.map fun g => [' ', '<'] ++ Text.join [' '] (g.map showProfile) ++ ['>']).flatten
 
 /-- `Display for lossy::Relations` (relations.rs:275-290) -/
 def showRelations (rs : List (List Relation)) : Str :=
